@@ -593,6 +593,10 @@ def run(chk):
     from rules import header
     nh = header.header_rule(chk, db, "C06-D11.header")
     chk.floor("C06-D11.header", nh, 2, "header numbers that size a vector in the reader")
+    nac = header.accepts_rule(chk, db, "C06-D15.accepts")
+    chk.floor("C06-D15.accepts", nac, 10, "rejections in the top-level readers")
+    nsr = header.sequenced_reads_rule(chk, db, "C06-D14.sequenced", [f_ for f_ in db.files() if f_.startswith(("SparseGrids/", "Addons/")) and "test" not in f_.lower()])
+    chk.floor("C06-D14.sequenced", nsr, 5, "calls with a stream read among their arguments")
 
     return ("Static rule discharge: every writer/reader pair (5 grid classes, index/storage sets, custom tabulated rule, both kinds of construction data, the addon sample storage) "
             "is linearised into a nested token sequence of (element type, data member) per i/o mode, template-constant branches folded, and the two sequences compared item by item; "
